@@ -60,6 +60,23 @@ func polymorphicHelper(p *Prog, g *ssa.Function) bool {
 	return false
 }
 
+// isFuncLiteralArg: a function literal or method value, possibly converted to a named function type, or a method
+// expression / function constant.
+func isFuncLiteralArg(a ssa.Value) bool {
+	for {
+		if ct, ok := a.(*ssa.ChangeType); ok {
+			a = ct.X
+			continue
+		}
+		break
+	}
+	switch a.(type) {
+	case *ssa.MakeClosure, *ssa.Function:
+		return true
+	}
+	return false
+}
+
 func closureDepth(f *ssa.Function) int {
 	n := 0
 	for f.Parent() != nil {
@@ -101,7 +118,7 @@ func normaliseHigherOrder(p *Prog) int {
 				}
 				if t := c.Call.StaticCallee(); t != nil && helpers[t] {
 					for _, a := range c.Call.Args {
-						if _, isLit := a.(*ssa.MakeClosure); isLit {
+						if isFuncLiteralArg(a) {
 							has = true
 						}
 					}
@@ -113,15 +130,23 @@ func normaliseHigherOrder(p *Prog) int {
 		}
 		nf, info, _ := ssa.InlinedView(f, func(site ssa.CallInstruction, callee *ssa.Function, d int) bool {
 			cm := site.Common()
-			if _, isLit := cm.Value.(*ssa.MakeClosure); isLit {
-				return true // a function literal called where it is written (or handed to an inlined helper)
+			fv := cm.Value
+			for {
+				if ct, ok := fv.(*ssa.ChangeType); ok {
+					fv = ct.X
+					continue
+				}
+				break
+			}
+			if _, isLit := fv.(*ssa.MakeClosure); isLit {
+				return true // a function literal or method value called where it is written (or handed to an inlined helper)
 			}
 			if poly[callee] && d <= 2 {
 				return true
 			}
 			if helpers[callee] && p.InRepo(callee) && d <= 2 {
 				for _, a := range cm.Args {
-					if _, isLit := a.(*ssa.MakeClosure); isLit {
+					if isFuncLiteralArg(a) {
 						return true
 					}
 				}
